@@ -148,7 +148,7 @@ pub fn checked_ready(rn: &mut RawNode<VStore>) -> (Ready, Obs) {
     assert!(rd.must_sync() == (o.n_unstable > 0 || has_snap || tv_changed), "must_sync rule");
     // --- committed entries: the slice (since, min(committed, persisted + limit)], contiguous, in order
     let since = if has_snap { rd.snapshot().get_metadata().index } else { o.commit_since };
-    let upper = if committed < persisted + limit { committed } else { persisted + limit };
+    let upper = if committed < persisted.saturating_add(limit) { committed } else { persisted.saturating_add(limit) };
     let ce = rd.committed_entries();
     if has_snap {
         assert!(ce.is_empty(), "snapshot Ready carries committed entries");
@@ -272,7 +272,7 @@ pub fn checked_advance(rn: &mut RawNode<VStore>, rd: Ready, o: &Obs) {
     let upto = if ce.is_empty() { handed } else { ce[ce.len() - 1].index };
     let limit = rn.raft.raft_log.max_apply_unpersisted_log_limit;
     let committed = rn.raft.raft_log.committed;
-    let mut bound = if committed < persisted + limit { committed } else { persisted + limit };
+    let mut bound = if committed < persisted.saturating_add(limit) { committed } else { persisted.saturating_add(limit) };
     if rn.raft.verif_private().max_committed_size_per_ready == 0 && bound > handed + 1 {
         bound = handed + 1; // one entry per hand-off
     }
@@ -433,7 +433,8 @@ pub fn cycle_drain(s: &mut Src, sh: &RnShape, inp: &Input, rounds: usize) {
         k += 1;
     }
     let l = &rn.raft.raft_log;
-    let bound = if l.committed < l.persisted + l.max_apply_unpersisted_log_limit { l.committed } else { l.persisted + l.max_apply_unpersisted_log_limit };
+    let ahead = l.persisted.saturating_add(l.max_apply_unpersisted_log_limit);
+    let bound = if l.committed < ahead { l.committed } else { ahead };
     assert!(rn.verif_view().commit_since_index == bound, "after draining, everything committed (and persisted) has been handed out");
     assert!(!rn.has_ready(), "nothing left, but has_ready() is true");
     vcover!(true, "drained");
